@@ -100,7 +100,7 @@ def plan(tier, seed):
         texts += [["gen-foreign-blocks", "mol2", i] for i in range(1, 4)]
         texts += [["concat", "mol2", "dmf.mol2+dummy.mol2+isornitrate.mol2+propyne.mol2"],
                   ["concat", "mol2", "benzene.mol2+isornitrate.mol2"]]
-    n_tok = 260 if quick else 2600
+    n_tok = 400 if quick else 4000
     specs = []
     for t in texts:
         parts = PARTS.get(t[2], 1) if isinstance(t[2], str) else 1
